@@ -556,7 +556,7 @@ func c07LimitZero(fs *Facts, f *File) {
 	// offset …) is a different function
 	want := []string{
 		"atomic.StoreInt64(&s.lastInteractionTime, time.Now().UnixNano())",
-		"if from < 0 { from = 0 }", // (optional: a negative offset reads from the start)
+		"if from < 0 { from = 0 }", // a negative offset reads from the start (the model's `from_.toNat`)
 		"if limit == 0 { limit = int32(s.beaconKey.Count()) }",
 		"var selectedTreasures []treasure.Treasure",
 		"var err error",
@@ -581,8 +581,7 @@ func c07LimitZero(fs *Facts, f *File) {
 		}
 		return true
 	}
-	without := append(append([]string{}, want[:1]...), want[2:]...)
-	if match(want) || match(without) {
+	if match(want) {
 		fs.Tri("limitZeroAll", Yes, c07At(c07Swamp, f, fd))
 	}
 }
